@@ -19,10 +19,12 @@ def claim(pid, category, text, note, technique, ref):
 
 
 claim("C01", "proof",
-      "Theorems over the Lean model of cut_str: empty-record and -s rules, order/verbatim rules of the output loop (all inputs, all options). "
-      "The end-to-end refinement cutStr = specRecord is not yet a theorem; it is carried by the executed specification used as direct "
-      "oracle against the implementation (bounded-exhaustive + random) and by the model correspondence.",
-      TIE + " Partial: the splitter refinement lemmas are still open (see Props/C01.lean header).",
+      "Theorem general_engine_eq_spec(_of_parsed): for EVERY input, every non-empty literal delimiter (also self-overlapping), every subset of "
+      "-g -p -t -s -j -r -m --fallback-oob and every bounds list the parser can produce, the model of read_and_cut_str equals the abstract per-record "
+      "specification (tokens by content, resolve, pieceText, joiner after every bound but the last) — output and status, never a panic; with C02 the fast "
+      "path too. Direct oracle: implementation vs the executed specification, bounded-exhaustive + random, through read_and_cut_str, the fast lane and "
+      "main's dispatch.",
+      TIE,
       "Lean 4 theorems over a hand-written model + differential correspondence + executed abstract specification as oracle", "§4 C01")
 
 claim("C02", "proof",
@@ -118,6 +120,23 @@ claim("C18", "proof",
       "non-decreasing, the four chained replace calls equal token-wise unescaping, no two adjacent fillers (73 theorems). Direct oracle: implementation vs "
       "the executed grammar on every string ≤ L symbols + random; rendering on probe records vs the executed specification.",
       TIE, "Lean 4 language-recognition theorem (scanner with look-ahead = lexer+parser, simulation proof) + bounded-exhaustive correspondence", "§4 C18")
+
+claim("C16", "proof",
+      "Theorems for ANY matcher (the engine only looks at the match list): fields are exactly the gaps between successive matches, one more field than "
+      "matches, -r copies the replacement literally for every match, -t touches only a match at the chosen end, after -p the printed slices are not matched "
+      "again (see evidence for the list). Direct oracle: the reading of the statement executed over match positions of an INDEPENDENT engine (python re) on "
+      "a regex family; the real engine's match positions for RE and (RE)+ are compared with python's and with the Lean matcher on every record.",
+      TIE + " Partial by nature: the regex engine is outside the model (an executable leftmost-first matcher for the family stands in for it and is validated "
+      "case by case); anchors, look-around, empty matches and classes with ranges are outside the family.",
+      "Lean 4 theorems parametric in the matcher + oracle over an independent regex engine + matcher correspondence", "§4 C16")
+claim("C17", "other",
+      "Partial. Theorems bound what the MODEL retains: nothing of a chunk crosses a chunk boundary in the -M machine (retained_zero_at_chunk_end), the pending "
+      "piece grows by at most the byte read. The real allocator / Vec growth / BufReader are MEASURED: counting global allocator in the harness, synthetic "
+      "generator → engine (same 64 KiB BufReader/BufWriter as main) → sink, peak live heap for N, 16N, 256N must stay within 64 KiB; a control run shows the "
+      "documented growing case (buffered -l) is seen to grow.",
+      "No theorem can speak about the allocator; category `other` because the deciding part is a measurement. Trusted: the counting allocator wrapper, the synthetic "
+      "reader, the harness building main's buffering faithfully.",
+      "retained-state theorems on the Lean model + measured peak-heap growth test", "§4 C17")
 
 NOT_YET = "check under construction in this session (model, harness and driver exist; the property's check is not registered yet)"
 
